@@ -19,6 +19,20 @@
 (*                          keys are mapped to one register (the map is      *)
 (*                          indexed by a hash of the key that is too short:  *)
 (*                          colliding names share the last-accepted slot)    *)
+(*   KeyAfterRewrite = TRUE "key_after_rewrite": the order check sits behind *)
+(*                          the blacklist and the rewriters and its register *)
+(*                          is chosen by the REWRITTEN (emitted) name: input *)
+(*                          names that a rewriter folds into one emitted     *)
+(*                          name share a register (and blacklisted points    *)
+(*                          never reach the check)                           *)
+(* Pipeline around the check (table.Dispatch): validation -> ORDER CHECK,     *)
+(* keyed by the validated input name -> blacklist -> rewriters -> routes.    *)
+(*   Fold = TRUE        the table has a rewriter that maps every key of Keys *)
+(*                      to one emitted name (k input names folded into one)  *)
+(*   Blacklisted        keys matched by a blacklist entry: their points are  *)
+(*                      dropped behind the order check (never forwarded)     *)
+(* "For that name" in the property is the input name: whatever the rewriters *)
+(* make of it, a point is judged against the points of its own input name.   *)
 (* The registers of different keys are independent (Independent): projected  *)
 (* to the calls of one key, the decisions are those of one fresh sequential  *)
 (* max-register.  This is what allows OrderedTrace.tla to judge a run key by *)
@@ -27,16 +41,20 @@ EXTENDS Integers, Sequences, FiniteSets, TLC
 
 CONSTANTS Keys, MaxTs, NCallers, MaxCalls,
           CmpStrict, WriteInLock, StoreFirst, CountReject, ReturnOnReject,
-          SharedRegister
+          SharedRegister, KeyAfterRewrite, Fold, Blacklisted
 
+ASSUME Blacklisted \subseteq Keys
 Callers == 1..NCallers
 Names == Keys \X {0, 1}          \* <<key, 1>> is the name with a leading dot
 KeyOfName(n) == n[1]
 \* the register that holds the last accepted timestamp of key k
-RegOf(k) == IF SharedRegister THEN CHOOSE r \in Keys : \A x \in Keys : r <= x ELSE k
+MinKey == CHOOSE r \in Keys : \A x \in Keys : r <= x
+\* the name a point of key k is emitted under (after the rewriters)
+Emitted(k) == IF Fold THEN MinKey ELSE k
+RegOf(k) == IF SharedRegister THEN MinKey ELSE IF KeyAfterRewrite THEN Emitted(k) ELSE k
 
-VARIABLES last, pc, arg, acc, ncalls, dec, ooo, badrec, fwd
-vars == <<last, pc, arg, acc, ncalls, dec, ooo, badrec, fwd>>
+VARIABLES last, pc, arg, acc, ncalls, dec, ooo, badrec, fwd, blk
+vars == <<last, pc, arg, acc, ncalls, dec, ooo, badrec, fwd, blk>>
 
 Init == /\ last = [k \in Keys |-> 0]
         /\ pc = [c \in Callers |-> "idle"]
@@ -45,18 +63,22 @@ Init == /\ last = [k \in Keys |-> 0]
         /\ ncalls = 0
         /\ dec = <<>>            \* decisions in decision order: [k, ts, acc]
         /\ ooo = 0 /\ badrec = [k \in Keys |-> 0] /\ fwd = <<>>
+        /\ blk = 0              \* points dropped by the blacklist
 
 Begin(c, n, ts) ==
   /\ pc[c] = "idle" /\ ncalls < MaxCalls
   /\ pc' = [pc EXCEPT ![c] = "called"] /\ arg' = [arg EXCEPT ![c] = [n |-> n, ts |-> ts]]
   /\ ncalls' = ncalls + 1
-  /\ UNCHANGED <<last, acc, dec, ooo, badrec, fwd>>
+  /\ UNCHANGED <<last, acc, dec, ooo, badrec, fwd, blk>>
 
 Newer(ts, old) == IF CmpStrict THEN ts > old ELSE ts >= old
 
+\* deviation KeyAfterRewrite: the blacklist comes first, a blacklisted point never reaches the order check
+SkipsCheck(k) == KeyAfterRewrite /\ k \in Blacklisted
+
 \* the critical section
 Decide(c) ==
-  /\ pc[c] = "called"
+  /\ pc[c] = "called" /\ ~SkipsCheck(KeyOfName(arg[c].n))
   /\ LET k == KeyOfName(arg[c].n) ts == arg[c].ts
          r == RegOf(k)
          a == Newer(ts, last[r]) IN
@@ -66,28 +88,39 @@ Decide(c) ==
         ELSE IF WriteInLock THEN /\ last' = [last EXCEPT ![r] = IF a THEN ts ELSE @]
                                  /\ pc' = [pc EXCEPT ![c] = "decided"]
         ELSE /\ UNCHANGED last /\ pc' = [pc EXCEPT ![c] = IF a THEN "write" ELSE "decided"]
-  /\ UNCHANGED <<arg, ncalls, ooo, badrec, fwd>>
+  /\ UNCHANGED <<arg, ncalls, ooo, badrec, fwd, blk>>
+
+\* deviation KeyAfterRewrite, blacklisted point: not rejected, no register touched
+Bypass(c) ==
+  /\ pc[c] = "called" /\ SkipsCheck(KeyOfName(arg[c].n))
+  /\ acc' = [acc EXCEPT ![c] = TRUE]
+  /\ dec' = Append(dec, [k |-> KeyOfName(arg[c].n), ts |-> arg[c].ts, acc |-> TRUE])
+  /\ pc' = [pc EXCEPT ![c] = "decided"]
+  /\ UNCHANGED <<last, arg, ncalls, ooo, badrec, fwd, blk>>
 
 \* deviation WriteInLock = FALSE: the store is a separate step
 LateWrite(c) ==
   /\ pc[c] = "write"
   /\ last' = [last EXCEPT ![RegOf(KeyOfName(arg[c].n))] = arg[c].ts]
   /\ pc' = [pc EXCEPT ![c] = "decided"]
-  /\ UNCHANGED <<arg, acc, ncalls, dec, ooo, badrec, fwd>>
+  /\ UNCHANGED <<arg, acc, ncalls, dec, ooo, badrec, fwd, blk>>
 
 End(c) ==
   /\ pc[c] = "decided"
   /\ pc' = [pc EXCEPT ![c] = "idle"]
   /\ LET k == KeyOfName(arg[c].n) IN
-     IF acc[c] THEN /\ fwd' = Append(fwd, [n |-> arg[c].n, ts |-> arg[c].ts])
-                    /\ UNCHANGED <<ooo, badrec>>
+     \* fwd keeps the input name of the point (it arrives at the routes as Emitted(k))
+     IF acc[c] /\ k \in Blacklisted THEN /\ blk' = blk + 1 /\ UNCHANGED <<ooo, badrec, fwd>>
+     ELSE IF acc[c] THEN /\ fwd' = Append(fwd, [n |-> arg[c].n, ts |-> arg[c].ts])
+                         /\ UNCHANGED <<ooo, badrec, blk>>
      ELSE /\ ooo' = IF CountReject THEN ooo + 1 ELSE ooo
           /\ badrec' = [badrec EXCEPT ![k] = @ + 1]
           /\ fwd' = IF ReturnOnReject THEN fwd ELSE Append(fwd, [n |-> arg[c].n, ts |-> arg[c].ts])
+          /\ UNCHANGED blk
   /\ UNCHANGED <<last, arg, acc, ncalls, dec>>
 
 Next == \E c \in Callers : \/ \E n \in Names, ts \in 0..MaxTs : Begin(c, n, ts)
-                           \/ Decide(c) \/ LateWrite(c) \/ End(c)
+                           \/ Decide(c) \/ Bypass(c) \/ LateWrite(c) \/ End(c)
 Spec == Init /\ [][Next]_vars
 
 -----------------------------------------------------------------------------
@@ -111,10 +144,13 @@ OnlyNewer ==
 \* accounting when nobody is inside a call
 Quiet == \A c \in Callers : pc[c] = "idle"
 NRej == Cardinality({i \in 1..Len(dec) : ~dec[i].acc})
+\* accepted by the order check, dropped by the blacklist behind it
+NDrop == Cardinality({i \in 1..Len(dec) : dec[i].acc /\ dec[i].k \in Blacklisted})
 Accounting == Quiet => /\ ooo = NRej
-                       /\ Len(fwd) = Len(dec) - NRej
+                       /\ Len(fwd) = Len(dec) - NRej - NDrop /\ blk = NDrop
                        /\ \A k \in Keys : badrec[k] = Cardinality({i \in 1..Len(dec) : ~dec[i].acc /\ dec[i].k = k})
 \* what is forwarded is exactly the accepted points, each once (per key, as sets of timestamps)
 FwdOK == Quiet => \A k \in Keys :
-           {f.ts : f \in {fwd[i] : i \in {x \in 1..Len(fwd) : KeyOfName(fwd[x].n) = k}}} = {d.ts : d \in {AccOf(k)[i] : i \in 1..Len(AccOf(k))}}
+           {f.ts : f \in {fwd[i] : i \in {x \in 1..Len(fwd) : KeyOfName(fwd[x].n) = k}}} =
+             IF k \in Blacklisted THEN {} ELSE {d.ts : d \in {AccOf(k)[i] : i \in 1..Len(AccOf(k))}}
 =============================================================================
